@@ -72,6 +72,19 @@ fn best_sequence(seq: &[Vec<T>]) -> Result<(), (String, String)> {
             return Err((format!("best:update-failed:{}", if pop.is_empty() { "empty-population" } else { "nonempty" }), format!("update {k} on {pop:?}: {r:?}")));
         }
         let got = st.borrow::<BestIndividual<TagP>>().as_ref().map(view);
+        // an unevaluated candidate cannot be compared (the call panics): whatever happens, the record is what it was
+        // (only probed while a record exists: an empty record takes whatever it is given)
+        if direct.is_some() {
+            let before = direct.as_ref().map(view);
+            let _ = catch(std::panic::AssertUnwindSafe(|| direct.update(&tagged(9_000 + k as u32, None))));
+            if direct.as_ref().map(|d| !d.is_evaluated()).unwrap_or(false) {
+                return Err(("best:record-changed-by-a-refused-update".into(), format!("BestIndividual::update with an unevaluated candidate replaced the record {before:?} by the unevaluated candidate")));
+            }
+            let after = direct.as_ref().map(view);
+            if after != before {
+                return Err(("best:record-changed-by-a-refused-update".into(), format!("BestIndividual::update with an unevaluated candidate changed the record from {before:?} to {after:?}")));
+            }
+        }
         // direct API: fold every member
         let mut any_true = false;
         for t in pop {
@@ -228,6 +241,19 @@ fn part_a(rep: &Reporter) {
                     }
                     if let Err((sig, msg)) = best_sequence(&seq) {
                         rep.violation(&sig, json!({"kind": "best-individual-sequence", "populations": format!("{:?}", seq.iter().map(|p| p.iter().map(|t| (t.0, val(t))).collect::<Vec<_>>()).collect::<Vec<_>>()), "observed": msg}));
+                    }
+                    // archive: an individual shown twice may sit in the archive twice; re-inserted into an empty
+                    // (or any) population it still arrives once
+                    if idx % 11 == 0 && !seq[0].is_empty() {
+                        let twice = vec![seq[0].clone(), seq[0].clone(), seq[1].clone()];
+                        for k in [2usize, 3, 8] {
+                            for target in [Vec::new(), seq[1].clone()] {
+                                local.case();
+                                if let Err((sig, msg)) = archive_sequence(&twice, k, &target) {
+                                    rep.violation(&sig, json!({"kind": "elitist-archive-sequence(a population shown twice)", "capacity": k, "reinsertion_target": format!("{target:?}"), "populations": format!("{:?}", twice.iter().map(|p| p.iter().map(|t| (t.0, val(t))).collect::<Vec<_>>()).collect::<Vec<_>>()), "observed": msg}));
+                                }
+                            }
+                        }
                     }
                     // archive: all capacities on a subsample (every 7th sequence), target = a mix
                     if idx % 7 == 0 {
